@@ -377,10 +377,10 @@ def translation_cases(ck: Check, note, quick: bool) -> None:
     if quick:
         datas = datas[:2]
     else:
-        for _ in range(6):
+        for _ in range(3):
             mk = lambda: "".join(ck.rng.choice(TOKENS + ["%(a)s", "%(y)s", "%", "%%"]) for _ in range(ck.rng.randrange(1, 5)))  # noqa: E731
             datas.append({"x": mk(), "y": mk(), "n": ck.rng.randrange(0, 4)})
-    tails = [(), (("upcase",),), (("append", VAR("y")),), (("slice", 0, 4),)] if not quick else [(), (("append", VAR("y")),)]
+    tails = [(), (("append", VAR("y")),), (("slice", 0, 4),)] if not quick else [(), (("append", VAR("y")),)]
     for reg in ("extra", "hand"):
         for ae in (True, False):
             aem = ae if reg == "extra" else False
@@ -602,7 +602,7 @@ def _run(ck: Check, quick: bool) -> None:
 
     # thorough: random chains of three
     if not quick:
-        for _ in range(12000):
+        for _ in range(8000):
             ch, kind = (), "S"
             while len(ch) < 3:
                 f = ck.rng.choice(pool)
